@@ -25,6 +25,8 @@ func isFloatType(t types.Type) bool {
 }
 
 func runC01(c *Ctx) {
+	c.Rule("O1.7", "a step profile is a succession of constant levels laid end to end: the composite that NewStep builds starts each part at the time the previous part reported as its finish - the argument of startNext is the time returned by the current part's Next() on its !ok edge, read in the critical section that shifts (the rule of O2.5, shared)")
+	c.Borrow("C02", runC02, map[string]string{"O2.5": "O1.7"})
 	c.Rule("O1.1", "no truncating integer arithmetic before float conversion in core/schedule: a float conversion must not be applied to a non-constant integer quotient/remainder/shift (that is how fractional-second durations lose their fraction)")
 	c.Rule("O1.2", "the configured duration reaches the schedule unchanged: NewConst/NewLine pass their duration parameter to NewDoAtSchedule, NewOnce passes 0; New*Conf constructors pass each config field to the parameter of the same name")
 	c.Rule("O1.3", "finish time: doAtSchedule.Next returns start.Add(duration), false exactly on the index >= n edge and start.Add(doAt(index)), true otherwise")
